@@ -544,7 +544,7 @@ def run_history(R, si, ci, m, ops, rng, label, second_round=True, in_range=True)
             before = lit(s, m)
             meas0 = measure(m, probes, depth)
             try:
-                r = {"copy": copy.copy, "deepcopy": copy.deepcopy, "pickle": lambda x: pickle.loads(pickle.dumps(x))}[kind](m)
+                r = {"copy": copy.copy, "deepcopy": copy.deepcopy, "pickle": histgen.pickle_rt}[kind](m)
                 out = "ok"
             except RecursionError:
                 return
@@ -637,7 +637,7 @@ def run_history(R, si, ci, m, ops, rng, label, second_round=True, in_range=True)
         # ---- second round: the history goes on with one of the copies
         if second_round and results and rng.random() < 0.5:
             kind, r = rng.choice(results)
-            kind2 = {"copy": copy.copy, "deepcopy": copy.deepcopy, "pickle": lambda x: pickle.loads(pickle.dumps(x))}[kind]
+            kind2 = {"copy": copy.copy, "deepcopy": copy.deepcopy, "pickle": histgen.pickle_rt}[kind]
             try:
                 r2 = kind2(m)   # a fresh one: r was scrambled
             except Exception:  # noqa
